@@ -547,7 +547,7 @@ def observe_safe(prop, cx, tier, seed, impl=None):
         return Case(term, cx.to_json(), False, [{'implementation_raised': repr(e)}], sig=cx.key())
 
 
-def module(prop, theorems, rule, extra_targets=(), exh=(9, 12), rnd=(200, 1500), big=(10, 12), partial='',
+def module(prop, theorems, rule, extra_targets=(), exh=(9, 12), rnd=(200, 1500), big=(10, 11), partial='',
            trusted_extra=()):
     """Build the attributes of a props.cXX module."""
     from .c08 import shrink_ctx
